@@ -232,3 +232,121 @@ Proof.
   - intros q. cbn. repeat match goal with |- context [if ?c then _ else _] => destruct c end; discriminate.
   - intros q. cbn. repeat match goal with |- context [if ?c then _ else _] => destruct c end; discriminate.
 Qed.
+
+(* ===================================================================================================================
+   Session 5: the open phase (atomicfile.WriteAny / atomicfile.New as generated decision trees, C13/Stage.v) under every
+   environment of failing calls; what happens when the sibling temporary cannot be created.
+   =================================================================================================================== *)
+From Relic Require Import C13.Stage C13.StageProofs.
+
+(* New is one call - the exclusive creation of the sibling - and returns its error; WriteAny on a destination that is neither
+   "-" nor special is isSpecial's stat followed by New, whatever else would fail in the environment *)
+Theorem new_result_cases : forall e,
+  new_result e = ([EvOpen 1 1 194 (f_temp e)], (if f_temp e then RNil else RAtomic), f_temp e).
+Proof. exact C13.StageProofs.new_result_cases. Qed.
+Theorem writeany_result_cases : forall e, staged e ->
+  writeany_result e = ([EvStat; EvOpen 1 1 194 (f_temp e)], (if f_temp e then RNil else RAtomic), f_temp e).
+Proof. exact C13.StageProofs.writeany_result_cases. Qed.
+(* when the temporary cannot be created: no handle, the error is returned, and the only calls made were the stat and the
+   failed creation *)
+Theorem stage_failure_returns_error : forall e, staged e -> f_temp e = true ->
+  o_handle (writeany_result e) = RNil /\ o_err (writeany_result e) = true /\
+  fail_aborts writeany_result e 1 = true /\
+  forall pt pd it idest, map (ev_op pt pd it idest) (o_events (writeany_result e)) = [SNop K_STAT_DEST; SCreate pt it].
+Proof. exact C13.StageProofs.stage_failure_returns_error. Qed.
+Theorem temp_failure_always_aborts : forall e, staged e -> fail_aborts writeany_result e 1 = true /\ fail_aborts new_result e 1 = true.
+Proof. exact C13.StageProofs.temp_failure_always_aborts. Qed.
+(* in no environment does WriteAny (non-special destination) or New open, truncate, create or remove the destination itself *)
+Theorem writeany_never_touches_dest : forall e, e_special e = false ->
+  existsb ev_touches_dest (o_events (writeany_result e)) = false.
+Proof. exact C13.StageProofs.writeany_never_touches_dest. Qed.
+Theorem new_never_touches_dest : forall e, existsb ev_touches_dest (o_events (new_result e)) = false.
+Proof. exact C13.StageProofs.new_never_touches_dest. Qed.
+Theorem callers_os_calls_reviewed : whole_os_calls = [] /\ pgp_os_calls = [0] /\ writefile_os_calls = [].
+Proof. exact C13.StageProofs.callers_os_calls_reviewed. Qed.
+
+(* the protocol checker accepts no plan with a direct access to the destination: every step of an accepted plan is a call
+   without effect, the creation of the temporary, a data call on the temporary's inode, or the final rename *)
+Theorem protocol_rejects_direct : forall pt pd it pl ph ph',
+  check pt pd it ph pl = Some ph' -> forall st, In st pl -> direct_op pt pd it (p_op st) = false.
+Proof. exact C13.StageProofs.protocol_rejects_direct. Qed.
+Theorem open_of_dest_rejected : forall pt pd it pl st p i c t,
+  In st pl -> p_op st = SOpen p i c t -> check pt pd it 0 pl = None.
+Proof. exact C13.StageProofs.open_of_dest_rejected. Qed.
+Theorem write_to_dest_rejected : forall pt pd it pl st j d,
+  In st pl -> p_op st = SWrite j d -> j <> it -> check pt pd it 0 pl = None.
+Proof. exact C13.StageProofs.write_to_dest_rejected. Qed.
+
+(* a run in which the temporary cannot be created, for every strategy, every environment, every destination and content: the
+   creation is the step that fails by itself, its error ends the output phase, and at the end as well as at every instant up
+   to it every name reads as before, no directory entry and no inode differs, no temporary exists; the plan as a whole is a
+   protocol run (nothing in it opens or writes the destination) *)
+Theorem whole_stage_failure : forall pt pd it s0 e idest, staged e -> f_temp e = true ->
+  forall writes, stage_failure_ok pt pd it s0 (whole_plan_e pt pd it e idest writes).
+Proof. exact C13.StageProofs.whole_stage_failure. Qed.
+Theorem writefile_stage_failure : forall pt pd it s0 e idest, staged e -> f_temp e = true ->
+  forall data, stage_failure_ok pt pd it s0 (writefile_plan_e pt pd it e idest data).
+Proof. exact C13.StageProofs.writefile_stage_failure. Qed.
+Theorem pgp_stage_failure : forall pt pd it s0 e idest, staged e -> f_temp e = true ->
+  forall inline clearsign io, stage_failure_ok pt pd it s0 (pgp_plan_e pt pd it e idest inline clearsign io).
+Proof. exact C13.StageProofs.pgp_stage_failure. Qed.
+Theorem rewrite_stage_failure : forall pt pd it iin s0 e, f_temp e = true ->
+  forall insize ps, stage_failure_ok pt pd it s0 (rewrite_plan_e pt pd it iin e insize ps).
+Proof. exact C13.StageProofs.rewrite_stage_failure. Qed.
+Theorem msi_stage_failure : forall pt pd it iin s0 e, f_temp e = true ->
+  forall insize nreads e1 e2, stage_failure_ok pt pd it s0 (msi_plan_e pt pd it iin e insize nreads e1 e2).
+Proof. exact C13.StageProofs.msi_stage_failure. Qed.
+
+(* every environment: each strategy is a safe plan (crash at any call, completion, an error at any call, failures by itself) *)
+Theorem whole_safe_e : forall pt pd it s0, pt <> pd -> fresh pt it s0 -> forall e idest, staged e ->
+  forall writes, safe_plan pt pd it s0 (whole_plan_e pt pd it e idest writes).
+Proof. exact C13.StageProofs.whole_safe_e. Qed.
+Theorem writefile_safe_e : forall pt pd it s0, pt <> pd -> fresh pt it s0 -> forall e idest, staged e ->
+  forall data, safe_plan pt pd it s0 (writefile_plan_e pt pd it e idest data).
+Proof. exact C13.StageProofs.writefile_safe_e. Qed.
+Theorem pgp_safe_e : forall pt pd it s0, pt <> pd -> fresh pt it s0 -> forall e idest, staged e ->
+  forall inline clearsign io, safe_plan pt pd it s0 (pgp_plan_e pt pd it e idest inline clearsign io).
+Proof. exact C13.StageProofs.pgp_safe_e. Qed.
+Theorem rewrite_safe_e : forall pt pd it iin s0, pt <> pd -> fresh pt it s0 -> forall e,
+  forall insize ps, safe_plan pt pd it s0 (rewrite_plan_e pt pd it iin e insize ps).
+Proof. exact C13.StageProofs.rewrite_safe_e. Qed.
+Theorem msi_safe_e : forall pt pd it iin s0, pt <> pd -> fresh pt it s0 -> forall e,
+  forall insize nreads e1 e2, safe_plan pt pd it s0 (msi_plan_e pt pd it iin e insize nreads e1 e2).
+Proof. exact C13.StageProofs.msi_safe_e. Qed.
+
+(* the design that is not the protocol: WriteAny falling back to open(dest, O_WRONLY|O_CREATE|O_TRUNC) when the sibling cannot be
+   created.  Rejected by the checker; killed after the open an empty file stands where a complete one existed; killed between
+   two writes the destination is neither the previous nor the new content; with an absent destination a partial file appears;
+   a handled error leaves the torn file behind *)
+Theorem fallback_refuted :
+  fail_aborts (writeany_result_t fallback_tree new_tree) (env_ok false false) 1 = false /\
+  existsb ev_touches_dest (o_events (writeany_result_t fallback_tree new_tree e_temp_fails)) = true /\
+  check 3 2 20 0 (fb_plan 11) = None /\
+  (exists k, sread (scrash k (fb_plan 11) s_demo) 2 = Some []) /\
+  (exists k, let s := scrash k (fb_plan 11) s_demo in
+             sread s 2 <> sread s_demo 2 /\ sread s 2 <> sread (srun (ops_of (fb_plan 11)) s_demo) 2 /\ sread s 2 = Some [5]) /\
+  (exists k, sread s_absent 2 = None /\ sread (scrash k (fb_plan 21) s_absent) 2 = Some [5] /\
+             sread (srun (ops_of (fb_plan 21)) s_absent) 2 = Some [5; 6]) /\
+  (exists n st, nth_error (fb_plan 11) n = Some st /\ p_onerr st = Abort /\ sread (fault n 0 (fb_plan 11) s_demo) 2 = Some [5]).
+Proof. exact C13.StageProofs.fallback_refuted. Qed.
+
+(* --- non-vacuity --- *)
+Example staged_env_demo : staged e_temp_fails /\ f_temp e_temp_fails = true /\ staged (env_ok false false) /\ f_temp (env_ok false false) = false.
+Proof. repeat split. Qed.
+(* a concrete run in which the creation fails: destination name 2 (content [7]) of s_demo, two writes *)
+Example stage_failure_demo :
+  stage_failure_ok 3 2 20 s_demo (whole_plan_e 3 2 20 e_temp_fails 11 [[5]; [6]]) /\
+  natural_fault (whole_plan_e 3 2 20 e_temp_fails 11 [[5]; [6]]) = Some 1%nat /\
+  sread (outcome (whole_plan_e 3 2 20 e_temp_fails 11 [[5]; [6]]) s_demo) 2 = Some [7] /\
+  (* and without the failure the same strategy completes with the new content *)
+  natural_fault (whole_plan_e 3 2 20 (env_ok false false) 11 [[5]; [6]]) = None /\
+  sread (outcome (whole_plan_e 3 2 20 (env_ok false false) 11 [[5]; [6]]) s_demo) 2 = Some [5; 6].
+Proof.
+  split; [apply whole_stage_failure; repeat split|]. repeat split; vm_compute; reflexivity.
+Qed.
+Example source_trees_accepted : check 3 2 20 0 (whole_plan_t 3 2 20 writeany_tree new_tree e_temp_fails 11 [[5]; [6]]) = Some 2%nat.
+Proof. exact C13.StageProofs.source_trees_accepted. Qed.
+(* the checker's rejection is about real plans: a plan that opens the destination *)
+Example direct_open_demo : check 3 2 20 0 [mkP (SOpen 2 11 true true) Abort [] false] = None /\
+  direct_op 3 2 20 (SOpen 2 11 true true) = true /\ direct_op 3 2 20 (SWrite 11 [5]) = true /\ direct_op 3 2 20 (SWrite 20 [5]) = false.
+Proof. repeat split. Qed.
